@@ -232,7 +232,7 @@ def gen_across(rng):
     L2 = L + rng.choice([200, 1000]) * rng.choice([1, 1, -1])
     L2 = max(c["T"] + 1, L2) if L2 > 0 else L + 300
     npre, nper, npost = rng.randint(1, 6), rng.randint(1, 4), rng.randint(3, 8)
-    use_reset = (not dyn) and rng.random() < 0.3
+    use_reset = (not dyn) and rng.random() < 0.45
     steps = []
     def fr(v, age, v2=None):
         st = dict(a="frame", pix=[[v] * w for _ in range(h)], ffcAge=age)
@@ -258,7 +258,13 @@ def gen_across(rng):
         return dict(cfg=c, kind="history", steps=steps)
     for i in range(npre):
         steps.append(fr(L, 60000, L2))
-    if use_reset:
+    if use_reset and rng.random() < 0.5:
+        steps.append(dict(a="reset"))
+    elif use_reset:
+        # the camera restarts in the middle of (or right after) an FFC period of 1..5 frames: the streams still differ
+        # during the period, they are identical from the reset on
+        for i in range(rng.randint(1, 5)):
+            steps.append(fr(L + rng.choice([0, 3]), rng.choice([0, 2000, 9999]), L2))
         steps.append(dict(a="reset"))
     else:
         for i in range(nper):
@@ -416,13 +422,13 @@ def run(ctx):
                     "count-thresh": rng2.choice([1, 3]), "frame-compare-gap": rng2.choice([1, 2, 45]),
                     "use-one-diff-only": rng2.random() < 0.5, "trigger-frames": rng2.choice([0, 1, 2, 9]),
                     "warmer-only": rng2.random() < 0.5, "edge-pixels": rng2.choice([0, 0, 1, 2])}
-            r = rng2.random()          # the optional limits, valid in every combination (0 = unset)
-            if r < 0.3:
-                mset["temp-thresh-min"] = rng2.choice([T - 100, T, T + 50])
+            r = rng2.random()          # the optional limits, valid in every combination (0 = unset), also on the
+            if r < 0.3:                # "wrong" side of temp-thresh (with a fixed threshold they are unused)
+                mset["temp-thresh-min"] = rng2.choice([T - 100, T, T + 50, T + 1000])
             elif r < 0.55:
-                mset["temp-thresh-max"] = rng2.choice([T + 300, T, T - 50])
+                mset["temp-thresh-max"] = rng2.choice([T + 300, T, T - 50, T - 90])
             elif r < 0.8:
-                mset["temp-thresh-min"], mset["temp-thresh-max"] = T - 100, T + 300
+                mset["temp-thresh-min"], mset["temp-thresh-max"] = rng2.choice([(T - 100, T + 300), (T + 100, T + 300), (T - 90, T - 50)])
             if rng2.random() < 0.3:   # only some keys set: the rest are the camera model's defaults, not compared
                 for k in rng2.sample(sorted(mset), rng2.randint(1, 5)):
                     del mset[k]
